@@ -232,6 +232,16 @@ class Harness(object):
             c[name] = s
             m[name] = [float(s)] * len(m[name])
 
+    def op_copy_addcolumn(self, k, name, vals):
+        # a copy (whole or of rows) is a columnfile of its own: it takes new columns like any other
+        if not self.copies:
+            return
+        c, m = self.copies[k % len(self.copies)]
+        n = len(next(iter(m.values()))) if m else c.nrows
+        v = [self._v(x) for x in (list(vals) * (n // max(1, len(vals)) + 1))[:n]]
+        c.addcolumn(np.array(v, float), name)
+        m[name] = v
+
     def op_rewrite(self):
         fn = os.path.join(self.tmp, "c17_rw.flt")
         self.cf.writefile(fn)
@@ -542,6 +552,11 @@ def make_machine(tmpdir):
         @rule(k=st.integers(0, 5), name=st.sampled_from(NAMES), s=VALS)
         def mutate_copy(self, k, name, s):
             self.do("mutate_copy", [k, name, s])
+
+        @precondition(lambda self: self.h is not None and len(self.h.copies) > 0)
+        @rule(k=st.integers(0, 5), name=st.sampled_from(NAMES + ["q"]), data=st.data())
+        def copy_addcolumn(self, k, name, data):
+            self.do("copy_addcolumn", [k, name, data.draw(st.lists(VALS, min_size=1, max_size=6))])
 
         @precondition(lambda self: self.h is not None and self.h.n > 0)
         @rule()
